@@ -20,8 +20,7 @@ META = {
 GEN = ("scale_typegen",)
 SRC = ("match(Punctuated::last(P0.segments)@v1::Some.0@syn::PathSegment.arguments){PathArguments::None=>Vec::new();"
        "PathArguments::AngleBracketed($)=>Iterator::collect(Iterator::map(Punctuated::iter(Punctuated::last(P0.segments)@v1::Some.0@syn::PathSegment.arguments@PathArguments::AngleBracketed.0.args),"
-       "|1|{match(substitutes::get_valid_from_substitution_type(C1_0)){v1::Some($)=>Ok(substitutes::get_valid_from_substitution_type(C1_0)@v1::Some.0);"
-       "v1::None=>Err(substitutes::error(Spanned::span(C1_0),TypeSubstitutionErrorKind::InvalidFromType))}}))?;"
+       "|1|{ok_or(substitutes::get_valid_from_substitution_type(C1_0),substitutes::error(Spanned::span(C1_0),TypeSubstitutionErrorKind::InvalidFromType))}))?;"
        "PathArguments::Parenthesized($)=>return Err(substitutes::error(Spanned::span(Punctuated::last(P0.segments)@v1::Some.0@syn::PathSegment.arguments@PathArguments::Parenthesized.0),TypeSubstitutionErrorKind::ExpectedAngleBracketGenerics))}")
 TGT = SRC.replace("P0.segments", "P1.segments").replace("get_valid_from_substitution_type", "get_valid_to_substitution_type").replace("InvalidFromType", "InvalidToType")
 
@@ -59,9 +58,10 @@ def check(ctx):
         ctx.bad("C07.6", "missing-anchor/parse_path_param_mapping", "", "parse_path_param_mapping not found")
     else:
         t = show(Norm(fn).term(fn["body"]), 10 ** 6)
-        ctx.expect(("(Vec::is_empty(%s)&&Vec::is_empty(%s))=>return Ok(TypeParamMapping::PassThrough)" % (SRC, TGT)) in t, "C07.6", "mapping/pass-through-iff-no-generics", fn["sp"],
+        SRCs, TGTs = q.sort_match_arms(SRC), q.sort_match_arms(TGT)
+        ctx.expect(("(Vec::is_empty(%s)&&Vec::is_empty(%s))=>return Ok(TypeParamMapping::PassThrough)" % (SRCs, TGTs)) in t, "C07.6", "mapping/pass-through-iff-no-generics", fn["sp"],
                    "PassThrough iff neither the source nor the target path declares generic arguments", "pass-through guard changed")
-        ctx.expect(t.endswith("}Ok(TypeParamMapping::Specified(Iterator::collect(Iterator::map(Iterator::enumerate(%s),|1|{(C1_0.1,C1_0.0)}))))" % SRC), "C07.6", "mapping/index-by-source-position", fn["sp"],
+        ctx.expect(t.endswith("}Ok(TypeParamMapping::Specified(Iterator::collect(Iterator::map(Iterator::enumerate(%s),|1|{(C1_0.1,C1_0.0)}))))" % SRCs), "C07.6", "mapping/index-by-source-position", fn["sp"],
                    "each source parameter ident is mapped to its own position among the SOURCE arguments (enumerate, order-preserving)", "mapping construction changed: " + t[-400:])
     # replacer
     expect_fn(ctx, "C07.7", "replacer", "substitutes::replace_path_params_recursively",
